@@ -39,6 +39,7 @@ func TestC09Session(t *testing.T) {
 				e := e
 				obs[e] = newWireObserver(p.Crypto, cfg.FEC[e], cfg.Conv, cfg.StreamID[e], cfg.Opts[e].Stream)
 				obs[e].written = func() int64 { a, _, _ := p.Progress(e); return a + 1<<40 } // accepted bytes are checked by C01; a Write in progress may already be on the wire
+				obs[e].clock = s.Now
 			}
 			s.OnSent = func(d *sim.Sent, from, to string, f *sim.Fate) error {
 				e := 0
